@@ -1,7 +1,7 @@
 """C02 — the Wasserstein distance is the true min-sum matching cost.
 
 Theorems: lean/PersimVerif/Props/C02.lean (model lean/PersimVerif/Model/Wasserstein.lean over an ordered
-field with `sqrt`/`cos(pi/4)` as parameters, and at the reals; specification Spec/Matching.lean).
+field with `sqrt` as a parameter, and at the reals; specification Spec/Matching.lean).
 Tie: the real `persim.wasserstein.wasserstein` against
   (i)  the model executed at Float with an exhaustive assignment solver (M+N <= 8, driver op `ws.exh`),
   (ii) at every size the *certified* optimum of the model's Float matrix (`ws.matrix`): scipy solves the
@@ -41,7 +41,10 @@ RULE = ("pairs of diagrams from one PRNG: sizes 0-7 mostly, 0-16 and 0-40 fewer 
         "2^20..2^40 or 1e3..1e9 feature sizes and T/delta log-uniform in 1e7..1e12, of which 60% 'paired': no point dropped or added, no diagonal "
         "points — every point is matched to its perturbed copy); on every pair of this class the value must lie in the ROUNDING INTERVAL of the "
         "specification value (entry_matrices: exact rational differences, 8 eps per distance entry relative to the entry, 8 eps per diagonal cost "
-        "relative to the point's coordinates, both ends certified by cert.dual, widened by 1e-9 of the value); a global power-of-two scale 2^-40..2^40 (on top of the per-coordinate 2^-20..2^20 of the dyadic mode); non-trivial = both sides keep a finite "
+        "relative to that cost, both ends certified by cert.dual, widened by 1e-9 of the value); 4% 'diagonal cost at an offset' pairs judged the same way "
+        "(exact diagonal points b == d and points of persistence 2^-13 or 1e-7..1e-13 of the offset, at offsets -5, -1e3, +-2^30, 2^40, 1e9, -1e6, "
+        "+-2^20..2^40, +-1e3..1e12, against the empty diagram on either side, against themselves, against a reordering of themselves, against other "
+        "diagonal points: the value is the sum of the (d-b)/sqrt 2 resp. exactly 0); whenever every point has b <= d the value must be >= 0 exactly; a global power-of-two scale 2^-40..2^40 (on top of the per-coordinate 2^-20..2^20 of the dyadic mode); non-trivial = both sides keep a finite "
         "point and there are >= 3 finite points in total; distinct by digest of the pair")
 ASSUMPTIONS = [
     "diagrams are (n,2): births finite, deaths finite or +inf (dropped with a warning); the code and the model treat NaN / -inf deaths like +inf, "
@@ -50,31 +53,36 @@ ASSUMPTIONS = [
     "warnings; which of the code's two messages appeared is compared with the model's flags as correspondence only",
     "the Euclidean distances are np.sqrt(np.sum((S[:,None,:]-T[None,:,:])**2, axis=2)) — coordinate differences first (since /repo fix "
     "6c9bac1; sklearn's expanded formula |x|^2-2xy+|y|^2 is no longer used) — i.e. the model's sqrt(dx*dx+dy*dy) operation by operation; "
-    "values are compared with tolerance min(1e-9*scale, 1e-9*|reference value| + 32*eps*scale) (scale = largest |coordinate| times the number "
-    "of summed rows; the second term is the rounding the rotation leaves in each diagonal-cost entry) — on 'large offset, tiny spread' inputs "
-    "that is ~1e-6 of the value instead of 20-100% of it",
+    "values are compared with tolerance min(1e-9*scale, 1e-9*|reference value| + 32*eps*rows*E) (scale = largest |coordinate| times the number "
+    "of summed rows, E = the largest entry of the definition's cost matrix: a distance between a point of one diagram and a point of the other or a "
+    "diagonal cost — invariant under translation; the second term is the room left to the assignment solver, whose potentials are sums and "
+    "differences of entries).  Since the /repo fix of the diagonal cost ((d - b)/np.sqrt(2) from the coordinate difference: exact or correctly "
+    "rounded, <= 3 eps of the entry) no term is relative to the coordinates, and where all selectable entries are 0 the value must be 0 exactly",
     "verdict on a disagreement (and on every 'large offset' pair): the value must ALSO lie in [min-sum(c - E), min-sum(c + E)] widened by 1e-9 of the "
     "value, c = the definition's cost matrix from exact rational coordinate differences, E = entrywise rounding bound of evaluating each entry in "
     "floating point from the given numbers (8 eps * |s - t| for a distance: differences of coordinates are formed first and a difference of nearby "
-    "doubles is exact; 8 eps * max(|b|, |d|) for a diagonal cost: the rotation b*(-sin) + d*cos rounds at the size of the coordinates — on /repo "
-    "wasserstein([[2^30, 2^30 + 2^-13]], []) is off by 1.4e-3 of its value and wasserstein([[-2^30, -2^30]], []) = -1.2e-7, which this bound "
-    "tolerates).  The floor 32 eps * scale of `tol_for` is granted whether or not a diagonal cost is used and hid, for points matched to "
-    "each other 1e-4 apart near 2^30, errors of 2e-3 of the value",
+    "doubles is exact; 8 eps * (d - b)/sqrt 2 for a diagonal cost: d - b of two doubles is exact or correctly rounded).  Until the /repo fix of the diagonal cost "
+    "that bound was 8 eps * max(|b|, |d|) and the floor of `tol_for` 32 eps * scale, because the rotation b*(-sin) + d*cos rounds at the size of the "
+    "coordinates: wasserstein([[2^30, 2^30 + 2^-13]], []) was off by 1.4e-3 of its value, wasserstein([[-5, -5]], []) = -5.6e-16 and "
+    "wasserstein([[-2^30, -2^30]], []) = -1.2e-7 (negative), and both allowances tolerated it",
+    "whenever every finite point of both diagrams has b <= d the value is >= 0 EXACTLY (theorem wasserstein_eq_spec_of_le; in floating point every "
+    "entry is >= 0 — fl(d - b) >= 0 for d >= b — and so is any sum of entries): a negative value is a failing input whatever its size",
     "inputs are converted with dtype=float (/repo fix dcbfa71), so the representation (list, float/integer array, Python ints) does not matter: "
     "the model is dtype-free and receives the same numbers as exact rationals",
-    "np.sum / BLAS dot agree with the model's left fold and b*(-sp)+d*cp up to rounding (inside the same tolerance)",
+    "np.sum agrees with the model's left fold up to rounding (inside the same tolerance); the diagonal-cost entries of code and model are the same "
+    "IEEE operations (4 eps of the entry allowed in the matrix tie; bit-identical on the fixed tree)",
     "scipy.optimize.linear_sum_assignment returns a minimum-cost perfect assignment when a finite one exists: a PARAMETER of the "
     "theorem, not proved; every run certifies the optimum it is compared against with exact dual potentials checked in Lean",
-    "exact-arithmetic idealisation: the theorems are over ordered fields / the reals with sqrt and cos(pi/4) given by their algebraic contracts",
+    "exact-arithmetic idealisation: the theorems are over ordered fields / the reals with sqrt given by its algebraic contract",
 ]
 TRUSTED = ["scipy.optimize.linear_sum_assignment (contract: minimum-cost perfect assignment; certified per run, not proved)",
-           "np.sqrt / np.cos / np.sin (contract: correctly rounded sqrt; cos(pi/4) = sin(pi/4) = 1/sqrt 2 up to rounding); BLAS dot for the rotation"]
+           "np.sqrt (contract: correctly rounded sqrt)"]
 TOL = 1e-9
 # the theorems that carry clauses of the property statement; the other obligations are the steps they are proved from
-# (aug_minsum_eq_pm, rot_diag_cost, placeholder_irrelevant, …), checker/solver facts (dual_cert_sound, exhLsa_contract, …)
+# (aug_minsum_eq_pm, diag_cost_entry, placeholder_irrelevant, …), checker/solver facts (dual_cert_sound, exhLsa_contract, …)
 # and restatements / instances
 CORE_THEOREMS = ["PersimVerif.C02.wasserstein_eq_spec_dgm",     # value = min-sum matching cost of the finite parts, every size, every solver meeting the contract
-                 "PersimVerif.C02.wasserstein_eq_spec_real",    # … at the reals with Real.sqrt, cos(pi/4), sin(pi/4): Euclid and (d-b)/sqrt 2
+                 "PersimVerif.C02.wasserstein_eq_spec_real",    # … at the reals with Real.sqrt: Euclid and (d-b)/sqrt 2
                  "PersimVerif.C02.inf_dropped"]                 # non-finite deaths dropped, flagged, without influence
 EXH_MAX = 8          # M+N bound of the exhaustive model run (after the placeholder)
 SPEC_MAX = 12        # |S|+|T| bound of the exhaustive specification
@@ -176,6 +184,46 @@ def gen_offset_pair(ctx, nmax):
             "scale_exp": 0}
 
 
+def gen_diag_pair(ctx, nmax):
+    """diagonal costs far from the origin: a diagram whose points are EXACT diagonal points (b == d) and points of tiny
+    persistence (d - b = 2^-13, or 1e-7..1e-13 of the offset) at a negative or huge offset (-5, -1e3, +-2^30, 2^40, 1e9,
+    -1e6, 2^20..2^40, 1e3..1e12), against the empty diagram (either side, every accepted form), against itself, against a
+    reordering of itself, or against another diagram of exact diagonal points elsewhere.  The specification value is the
+    sum of the (d - b)/sqrt 2 (0 for diagonal points) resp. 0, and the value must lie in the rounding interval of it
+    (mode 'offset'): evaluating a diagonal cost through ANY arithmetic on the coordinates before d - b is formed (the
+    rotation by pi/4 the code used until the /repo fix of the diagonal cost) leaves eps * |offset| in each of them —
+    a negative 'distance' for diagonal points, an error of 1e-3 of the value for [[2^30, 2^30 + 2^-13]]."""
+    r = ctx.rng
+    T = r.choice([-5.0, -5.0, -1e3, -2.0 ** 30, 2.0 ** 30, 2.0 ** 30, 2.0 ** 40, 1e9, -1e6, 2.0 ** r.randint(20, 40) * r.choice([1, -1]),
+                  10.0 ** r.uniform(3, 12) * r.choice([1, -1])])
+    spread = r.choice([0.0, 1.0, 1e-3, 100.0])
+    all_diag = r.random() < 0.35
+    n = r.choice([1, 1, 2, 3, r.randint(1, max(1, nmax))])
+    pts = []
+    for _ in range(n):
+        b = T + r.uniform(-1, 1) * spread
+        if all_diag or r.random() < 0.4:
+            pts.append([b, b])
+        else:
+            tiny = r.choice([2.0 ** -13, abs(T) / 10.0 ** r.uniform(7, 13), abs(T) / 10.0 ** r.uniform(7, 13)])
+            pts.append([b, max(b, b + tiny)])
+    what = r.choice(["empty", "empty", "self", "reorder", "other_diagonal"])
+    if what == "empty":
+        other = []
+    elif what == "self":
+        other = [list(p) for p in pts]
+    elif what == "reorder":
+        other = [list(p) for p in pts]
+        r.shuffle(other)
+    else:
+        other = [[x, x] for x in (T * r.choice([1.0, -1.0, 0.5]) + r.uniform(-1, 1) * spread for _ in range(r.randint(1, 3)))]
+    d1, d2 = (pts, other) if r.random() < 0.5 else (other, pts)
+    ctx.count("gen:diagonal_cost_at_offset")
+    ctx.count("gen:diagonal_cost_at_offset:%s%s" % (what, "_all_diagonal" if all(p[0] == p[1] for p in pts) else ""))
+    return {"dgm1": d1, "dgm2": d2, "kinds": [r.choice(["list", "array"]), r.choice(["list", "array"])], "mode": "offset",
+            "scale_exp": 0, "eforms": [r.randint(0, 5), r.randint(0, 5)]}
+
+
 def gen_pair(ctx, nmax):
     g, r = ctx.gen, ctx.rng
     u = r.random()
@@ -183,6 +231,8 @@ def gen_pair(ctx, nmax):
         return gen_int_pair(ctx, nmax)
     if u < 0.14:
         return gen_offset_pair(ctx, nmax)
+    if u < 0.18:
+        return gen_diag_pair(ctx, nmax)
     mode = r.choice(["lattice", "lattice", "half", "dyadic", "dec", "unif"])
     mode2 = mode if r.random() < 0.8 else g.mode()
     d1 = g.diagram(nmax, mode, allow_diag=True, dup=0.2)
@@ -338,19 +388,40 @@ def scale_of(case):
 
 
 EPS = 2.0 ** -52
-ROUND = 32 * EPS      # per row: rotation b*(-sp)+d*cp, sqrt, the sum — a few ulp of the largest |coordinate| each
+ROUND = 32 * EPS      # per row: what the solver's own arithmetic on the ENTRIES may cost (see tol_for)
+
+
+def entry_scale(case):
+    """rows * the largest finite entry of the DEFINITION's cost matrix: distances between a point of one finite part and a
+    point of the other, diagonal costs |d - b|/sqrt 2.  Invariant under translating both diagrams along the diagonal; 0
+    when every point is a diagonal point and no point of one diagram is at a distance from a point of the other."""
+    if "_entry_scale" in case:
+        return case["_entry_scale"]
+    S, T = finite_part(case["dgm1"]), finite_part(case["dgm2"])
+    m = max([abs(p[1] - p[0]) / math.sqrt(2.0) for p in S + T] + [0.0])
+    for p in S:
+        for q in T:
+            m = max(m, math.hypot(p[0] - q[0], p[1] - q[1]))
+    case["_entry_scale"] = m * (max(1, len(S)) + max(1, len(T)))
+    return case["_entry_scale"]
 
 
 def tol_for(case, ref):
-    """tolerance for comparing a Wasserstein value with the reference value `ref`: 1e-9 relative to the VALUE plus a
-    rounding-level term 32*eps * largest |coordinate| * rows (the absolute error the rotation by cos/sin(pi/4) leaves
-    in every diagonal-cost entry), never more than the former 1e-9 * largest |coordinate| * rows.  On 'large offset, tiny
-    spread' inputs (values ~ 1e-8 * offset) this is ~1e-6 of the value where 1e-9 * offset * rows was 20-100% of it."""
+    """tolerance for comparing a Wasserstein value with the reference value `ref`: 1e-9 relative to the VALUE plus
+    32*eps * rows * (largest entry of the definition's cost matrix) — the room left to the assignment solver, whose dual
+    potentials are sums and differences of ENTRIES (a near-optimal assignment it may return instead of an optimal one is
+    worse by that much at most), never more than the former 1e-9 * largest |coordinate| * rows.
+    Nothing here is relative to the COORDINATES any more: every entry is computed from coordinate differences ((d - b)/sqrt 2
+    since the /repo fix of the diagonal cost, which is exact or correctly rounded: error <= 3 eps of the entry), so a
+    translation of both diagrams by 2^30 leaves the tolerance where it was, and where every entry that can be selected
+    is 0 (diagonal points against the empty diagram, a diagram against itself) the value has to be 0 exactly.  Until
+    that fix the floor was 32*eps * largest |coordinate| * rows — what the rotation by pi/4 left in each diagonal cost —
+    and let wasserstein([[-5, -5]], []) = -5.6e-16 and [[2^30, 2^30 + 2^-13]] vs [] (off by 1.4e-3 of the value) pass."""
     scale = scale_of(case)
     ref = abs(float(ref))
     if not math.isfinite(ref):
         return TOL * scale
-    return min(TOL * scale, TOL * ref + ROUND * scale)
+    return min(TOL * scale, TOL * ref + ROUND * entry_scale(case))
 
 
 def agree(a, b, scale, case=None):
@@ -358,8 +429,8 @@ def agree(a, b, scale, case=None):
     a, b = float(a), float(b)
     if math.isnan(a) or math.isnan(b) or math.isinf(a) or math.isinf(b):
         return False
-    if scale == 0.0:        # every coordinate is 0 (or both sides empty): the value is 0 up to the code's own constants
-        return abs(a - b) <= 1e-12
+    if scale == 0.0:        # every coordinate is 0 (or both sides empty): every entry is 0 and so is the value, exactly
+        return a == b
     if case is not None:
         return abs(a - b) <= tol_for(case, b)
     return abs(a - b) <= TOL * scale
@@ -381,7 +452,10 @@ def matrix_tie(case, Dc, Dm, ctx=None):
     property); a distance entry must be THE correctly rounded sqrt whenever dx, dy, dx^2, dy^2 and their sum are exact
     in double precision (then every IEEE evaluation order gives the same bits) and zero entries must be zero; other
     distance entries within 1e-9 RELATIVE TO THE ENTRY (differences are formed before squaring), diagonal-cost entries
-    within 1e-9 * largest |coordinate| of their point.  -> None or a description of the first difference"""
+    within 4 eps OF THE ENTRY: code and model both evaluate (d - b) / sqrt(2) — one subtraction, one correctly rounded
+    sqrt(2), one division, the same IEEE operations (on the fixed tree the two matrices are bit-identical; until the
+    /repo fix of the diagonal cost the tolerance was 1e-9 * largest |coordinate| of the point, which the rotation
+    needed).  -> None or a description of the first difference"""
     n = len(Dm)
     if getattr(Dc, "ndim", 0) != 2 or Dc.shape != (n, n):
         return "shape %r, model %dx%d" % (getattr(Dc, "shape", None), n, n)
@@ -413,8 +487,7 @@ def matrix_tie(case, Dc, Dm, ctx=None):
                 continue
             if i >= M and j >= N:
                 return "entry (%d,%d) of the zero block: code %r" % (i, j, x)
-            pt = S[i] if i < M else T[j]        # b*(-sp)+d*cp: the error is relative to the coordinates of this point
-            tol = TOL * max(abs(pt[0]), abs(pt[1]))
+            tol = 4 * EPS * abs(y)              # (d - b) / sqrt 2 on both sides: relative to the entry, 0 for a diagonal point
             if not abs(x - y) <= tol:
                 return "diagonal-cost entry (%d,%d): code %r, model %r, tolerance %r" % (i, j, x, y, tol)
     return None
@@ -563,11 +636,13 @@ def entry_matrices(S, T):
       distance |s - t|:   K eps * |s - t|.  The differences of the coordinates are formed first; a difference of two doubles
                           is computed with relative error eps/2 (exactly, when they are within a factor 2 of each other), the
                           squares, their sum and the sqrt add 1.5 eps: relative to the ENTRY, however far from the origin;
-      diagonal cost of p: K eps * max(|b|, |d|, cost).  (d - b)/sqrt 2 evaluated through the rotation b*(-sin) + d*cos (what
-                          the code does, cos(pi/4) and sin(pi/4) being two doubles one ulp apart) carries about
-                          2 eps * max(|b|, |d|): relative to the coordinates entering the subtraction.
-    K = 8 leaves a factor 3-4 over those bounds (measured on the unchanged tree over 3000 offset pairs with
-    |T|/delta = 1e7..1e12: the value uses at most 0.11 of the half-width of the interval below)."""
+      diagonal cost of p: K eps * cost.  (d - b)/sqrt 2: the difference of two doubles is exact or correctly rounded (eps/2 OF
+                          THE DIFFERENCE), sqrt 2 and the division add eps: < 3 eps/2 relative to the ENTRY, however far
+                          from the origin, and 0 for a diagonal point.  (Until the /repo fix of the diagonal cost the code
+                          went through the rotation b*(-sin) + d*cos, cos(pi/4) and sin(pi/4) being two doubles one ulp
+                          apart, which carries 2 eps * max(|b|, |d|); the bound here was K eps * max(|b|, |d|, cost) and
+                          tolerated wasserstein([[-2^30, -2^30]], []) = -1.2e-7.)
+    K = 8 leaves a factor 4-5 over those bounds."""
     F = Fraction
     M, N = len(S), len(T)
     r2 = math.sqrt(2.0)
@@ -581,11 +656,11 @@ def entry_matrices(S, T):
             E[i][j] = K_ENTRY * EPS * D[i][j]
         for j in range(M):
             D[i][N + j] = float(F(S[i][1]) - F(S[i][0])) / r2 if i == j else math.inf
-        E[i][N + i] = K_ENTRY * EPS * max(abs(S[i][0]), abs(S[i][1]), D[i][N + i])
+        E[i][N + i] = K_ENTRY * EPS * abs(D[i][N + i])
     for i in range(N):
         for j in range(N):
             D[M + i][j] = float(F(T[i][1]) - F(T[i][0])) / r2 if i == j else math.inf
-        E[M + i][i] = K_ENTRY * EPS * max(abs(T[i][0]), abs(T[i][1]), D[M + i][i])
+        E[M + i][i] = K_ENTRY * EPS * abs(D[M + i][i])
     return D, E
 
 
@@ -607,10 +682,9 @@ def interval_certificates(case):
 def interval_from(case, ans_lo, ans_hi, certs):
     """(lo, hi): the certified optima of the matrices c - E and c + E, widened by 1e-9 RELATIVE TO THE VALUE — the
     tolerance every value comparison of this check uses (it also covers the rounding of the final sum, 2 eps * rows).
-    Against `tol_for` this replaces the floor 32 eps * (largest |coordinate|) * rows, which is granted to every input
-    whether or not its optimal matching uses a diagonal cost, by the error bound of the entries that are actually summed:
-    on a pair of diagrams 1e-4 apart near 2^30 whose points are all matched to each other the old floor was 2e-3 of the
-    value, this one is 1e-9 of it"""
+    Against `tol_for` this replaces the floor 32 eps * rows * (largest entry), which is granted whichever entries the
+    optimal matching uses, by the error bound of the entries that are actually summed; where those are all 0 the interval
+    is the single number 0"""
     lo = float(checked(ans_lo, certs[0][1]))
     hi = float(checked(ans_hi, certs[1][1]))
     w = TOL * max(abs(lo), abs(hi))
@@ -696,6 +770,11 @@ def outside_quantifier(case):
     return any(not math.isfinite(p[0]) or math.isnan(p[1]) or p[1] == -math.inf for d in (case["dgm1"], case["dgm2"]) for p in d)
 
 
+def proper(case):
+    """every finite point has b <= d (what a persistence diagram is): all costs of the specification are >= 0"""
+    return all(p[0] <= p[1] for d in (case["dgm1"], case["dgm2"]) for p in finite_part(d))
+
+
 def wants_warning(case):
     return any(p[1] == math.inf for d in (case["dgm1"], case["dgm2"]) for p in d)
 
@@ -706,7 +785,8 @@ def cheap_verdict_fails(case, code, certified):
     if outside_quantifier(case):
         return False
     st, v = code[0], code[1]
-    return st != "ok" or not agree(v, certified, scale_of(case), case) or (wants_warning(case) and not code[4])
+    return st != "ok" or not agree(v, certified, scale_of(case), case) or (wants_warning(case) and not code[4]) \
+        or (proper(case) and not v >= 0)
 
 
 def property_fails(case, code):
@@ -721,13 +801,16 @@ def property_fails(case, code):
         return True, "the code raised %s; specification value %r by %s" % (v, val, how)
     if wants_warning(case) and not code[4]:
         return True, "a point with infinite death was dropped without any warning (value %r, specification %r)" % (v, val)
+    if proper(case) and not v >= 0:
+        return True, ("code value %r is negative; every point of both diagrams has b <= d, so every cost is >= 0 and so is the "
+                      "minimum over partial matchings: specification value %r by %s" % (v, val, how))
     if not agree(v, val, scale_of(case), case):
         return True, "code value %r, specification value %r by %s (tolerance %r)" % (v, val, how, tol_for(case, val))
     iv = rounding_interval(case)
     if not in_interval(v, iv):
         return True, ("code value %r, specification value %r by %s: off by %.3g of the value, outside the interval [%r, %r] = 1e-9 of the "
                       "value + what entrywise rounding of the cost matrix allows (%d eps relative to each distance, %d eps relative to "
-                      "the coordinates of a point for its diagonal cost; Lean cert.dual certified both ends)"
+                      "each diagonal cost; Lean cert.dual certified both ends)"
                       % (v, val, how, abs(v - val) / max(abs(val), 1e-300), iv[0], iv[1], K_ENTRY, K_ENTRY))
     return False, "code value %r equals the specification value %r (%s)" % (v, val, how)
 
@@ -747,6 +830,11 @@ CORPUS = [
     {"dgm1": [[0.0, 4.0], [1.0, 2.0]], "dgm2": [[0.0, 4.5], [10.0, 10.5]], "kinds": ["list", "list"]},
     {"dgm1": [[0.0, 3.0 * 2.0 ** 20]], "dgm2": [[2.0 ** -20, 2.0 ** -19]], "kinds": ["list", "list"]},
     {"dgm1": [[-3.0, -1.0], [-2.0, 5.0]], "dgm2": [[-2.5, -1.0]], "kinds": ["list", "list"]},  # negative coordinates
+    # diagonal costs far from the origin (mode 'offset': judged by the rounding interval of the specification value)
+    {"dgm1": [[-5.0, -5.0]], "dgm2": [], "kinds": ["list", "list"], "mode": "offset"},       # a diagonal point vs empty: 0
+    {"dgm1": [[-2.0 ** 30, -2.0 ** 30]], "dgm2": [[-2.0 ** 30, -2.0 ** 30]], "kinds": ["list", "list"], "mode": "offset"},
+    {"dgm1": [[2.0 ** 30, 2.0 ** 30 + 2.0 ** -13]], "dgm2": [], "kinds": ["array", "list"], "mode": "offset"},   # 2^-13/sqrt 2
+    {"dgm1": [], "dgm2": [[1e9, 1e9], [1e9 + 1.0, 1e9 + 1.0 + 2.0 ** -20]], "kinds": ["list", "array"], "mode": "offset"},
     # an empty diagram in every form the function accepts: [], [[]], np.zeros((0,2)), np.array([]), np.array([[]])
     {"dgm1": [], "dgm2": [[0.0, 2.0]], "kinds": ["list", "list"], "eforms": [1, 0]},
     {"dgm1": [[1.0, 4.0]], "dgm2": [], "kinds": ["array", "array"], "eforms": [0, 1]},
@@ -762,8 +850,9 @@ def sizes_of(case):
 
 
 ANCHOR = "persim/wasserstein.py"
-ANCHOR_DIGEST = "5607e8053791a606"       # structural digest of `wasserstein` the model mirrors (after /repo fixes 6c9bac1: distances from
-                                         # coordinate differences, dcbfa71: inputs converted with dtype=float)
+ANCHOR_DIGEST = "0f8d09801cb15803"       # structural digest of `wasserstein` the model mirrors (after /repo fixes 6c9bac1: distances from
+                                         # coordinate differences, dcbfa71: inputs converted with dtype=float, WFIXCOMMIT: diagonal cost
+                                         # (d - b)/np.sqrt(2) from the coordinate difference instead of the rotation by pi/4)
 
 
 # source translator (DESIGN.md 3.2): part of the model is regenerated from the source text on every run
@@ -907,6 +996,10 @@ def run(ctx):
         if st != "ok":
             problems.append(("value", "code raised %s" % v, "model certified optimum %s" % float(certified)))
         else:
+            if proper(c) and not outside_quantifier(c):
+                ctx.test("value_nonnegative(b <= d everywhere)", v >= 0)
+                if not v >= 0:
+                    problems.append(("sign", v, "every cost is >= 0; model certified optimum %s" % float(certified)))
             if not agree(v, certified, scale, c):
                 problems.append(("ws.matrix+cert.dual", v, float(certified)))
             if "exh" in slot:
@@ -993,9 +1086,10 @@ def run(ctx):
         for what, rec_ in deferred:
             ctx.violation(what, rec_, found_input=False)
     ctx.extra["tolerance"] = ("large-offset pairs and every verdict on a disagreement: 1e-9 of the value + the entrywise rounding interval (8 eps per distance "
-                              "entry relative to the entry, 8 eps per diagonal cost relative to the point's coordinates; cert.dual certified); "
-                              "value: min(1e-9 * (largest |coordinate|) * (rows of the augmented matrix), 1e-9*|reference| + 32*eps*(largest |coordinate|)*rows); matrix entries: distance entries exact "
-                              "where the arithmetic is exact, else 1e-9 relative to the entry; diagonal-cost entries 1e-9 * |coordinates of the point|")
+                              "entry relative to the entry, 8 eps per diagonal cost relative to that cost; cert.dual certified); "
+                              "value: min(1e-9 * (largest |coordinate|) * (rows of the augmented matrix), 1e-9*|reference| + 32*eps*(largest entry of the definition's cost matrix)*rows), "
+                              ">= 0 exactly when b <= d everywhere; matrix entries: distance entries exact "
+                              "where the arithmetic is exact, else 1e-9 relative to the entry; diagonal-cost entries 4 eps of the entry")
 
 
 def large_closed_form(ctx):
@@ -1020,14 +1114,19 @@ def large_closed_form(ctx):
             got = [("large vs empty", float(ws(A, empty)), want), ("empty vs large", float(ws(empty, A)), want),
                    ("large vs its reordering", float(ws(A, perm)), 0.0)]
         for what, v, w in got:
-            ok = math.isfinite(v) and abs(v - w) <= 1e-9 * 150.0 * n
+            # against the empty diagram: n diagonal costs, each within 2 eps of (d - b)/sqrt 2, summed (n eps): 1e-9 of the
+            # VALUE; against its reordering: every point has a copy at distance exactly 0, and the fixed tree returns exactly
+            # 0 (the solver finds the zero assignment: all its comparisons are between entries >= 0 and the zeros); the room
+            # left is 32 eps * n * the largest entry (tol_for's room for the solver), 1e-9 * 150 * n before
+            ctol = 1e-9 * w if w else ROUND * n * 150.0
+            ok = math.isfinite(v) and abs(v - w) <= ctol and v >= 0
             ctx.test("closed_form_large(real code)", ok)
             ctx.count("large_closed_form:n=%d" % n)
             if not ok:
                 ctx.violation("wasserstein of a %d-point diagram (%s) is %r, the minimum over partial matchings is %r" % (n, what, v, w),
                               {"dgm1": pts if what != "empty vs large" else [], "dgm2": [] if what == "large vs empty" else (pts if what == "empty vs large" else perm.tolist()),
                                "kinds": ["array", "array"], "mode": "dyadic", "scale_exp": 0, "closed_form": w,
-                               "closed_form_tol": 1e-9 * 150.0 * n}, found_input=True)
+                               "closed_form_tol": ctol}, found_input=True)
                 return
 
 
@@ -1065,25 +1164,28 @@ def replay(ctx, rep):
 MANIFEST = {
     "text": "Proof (23 theorems, of which 3 are the core statements: wasserstein_eq_spec_dgm, wasserstein_eq_spec_real, inf_dropped; the "
             "rest are the steps they are proved from, checker/solver facts, restatements and instances): Lean theorems about the line-by-line model of persim.wasserstein.wasserstein over every ordered field (and at the "
-            "reals with Real.sqrt, cos(pi/4)): the augmented (M+N)x(M+N) matrix has the same minimum over perfect assignments as the "
+            "reals with Real.sqrt): the augmented (M+N)x(M+N) matrix has the same minimum over perfect assignments as the "
             "sum cost has over all partial matchings (explicit map partial matching <-> finite perfect assignment; the zero block "
-            "contributes 0), the second rotated coordinate is (d-b)/sqrt 2, the (0,0) placeholder of an empty side never changes the "
+            "contributes 0), the diagonal entries are (d-b)/sqrt 2 as written (diag_cost_entry, augEntry_diag; since the /repo fix of the diagonal cost there "
+            "is no rotation and no cos(pi/4) parameter any more), the (0,0) placeholder of an empty side never changes the "
             "minimum, points with non-finite death are dropped and flagged, hence for diagrams of every size, multiplicity and scale the "
             "returned value is the min-sum matching cost (wasserstein_eq_spec) - for EVERY assignment solver meeting the contract "
             "'returns a minimum-cost perfect assignment when a finite one exists'. scipy.optimize.linear_sum_assignment's optimality is "
             "that parameter of the theorem: it is not proved, it is certified on every run - the value of the real code is compared with "
             "an optimum certified by exact rational dual potentials that a Lean-proved checker (dual_cert_sound/dualCheck_sound, weak "
             "duality) accepts, and with the model's exhaustive optimum when M+N<=8 (the exhaustive solver is itself proved to meet the "
-            "contract, exhLsa_contract, so that value is the specification's by theorem). sqrt and cos(pi/4)=sin(pi/4) are parameters with "
-            "their algebraic contracts (sqrt x >= 0, sqrt x * sqrt x = x for x >= 0; c >= 0, c*c = 1/2), instantiated at the reals. The tie also "
+            "contract, exhLsa_contract, so that value is the specification's by theorem). sqrt is a parameter with "
+            "its algebraic contract (sqrt x >= 0, sqrt x * sqrt x = x for x >= 0), instantiated at the reals. The tie also "
             "compares the matrix the real routine hands to scipy ENTRY BY ENTRY with the model's (same infinity pattern; distance entries exact "
-            "where the arithmetic is exact, else 1e-9 relative to the entry), and feeds the arguments in every representation (lists, float and "
+            "where the arithmetic is exact, else 1e-9 relative to the entry; diagonal-cost entries 4 eps of the entry), and feeds the arguments in every representation (lists, float and "
             "int32/int16/uint8/int64 arrays, Python ints) — the model is dtype-free.",
     "note": "Trusted: Lean kernel + Mathlib (axioms propext/Classical.choice/Quot.sound); the correspondence harness; scipy's "
             "linear_sum_assignment contract (certified per run, not proved); np.sqrt of the summed squared coordinate differences = "
-            "Euclidean distance up to rounding (tolerance 1e-9*scale, and never more than 1e-9*|value| + 32 eps*scale; for a failing input, and on every "
-            "'large offset, tiny spread' pair - offsets up to 2^40, offset/difference ratios 1e7..1e12 - additionally 1e-9*|value| + the entrywise rounding "
-            "interval [min-sum(c-E), min-sum(c+E)], E = 8 eps relative to each distance entry resp. to the coordinates of a point for its diagonal cost, both "
+            "Euclidean distance up to rounding (tolerance 1e-9*scale, and never more than 1e-9*|value| + 32 eps*rows*largest entry of the definition's cost matrix - nothing "
+            "relative to the coordinates; a value < 0 on diagrams with b <= d is a failing input; for a failing input, and on every "
+            "'large offset, tiny spread' and 'diagonal cost at an offset' pair - offsets up to 2^40, offset/difference ratios 1e7..1e13, exact diagonal points at -5..2^40 "
+            "against empty / themselves - additionally 1e-9*|value| + the entrywise rounding "
+            "interval [min-sum(c-E), min-sum(c+E)], E = 8 eps relative to each distance entry resp. each diagonal cost, both "
             "ends certified by cert.dual; the matrix handed to scipy is compared ENTRY BY ENTRY with the "
             "model's: same infinity pattern, exact where the arithmetic is exact); IEEE rounding is outside the theorems. [T] lsa_contract: every "
             "matrix the real routine hands to scipy is observed in-process and the assignment scipy returned is compared with that "
